@@ -85,7 +85,7 @@ GRAY = 1e-5
 
 
 class Node:
-    __slots__ = ("op", "kids", "slots", "vec", "ufl", "unexp", "fn", "syn", "deg", "conjd", "depth", "sig", "bad", "memo", "kind", "info")
+    __slots__ = ("op", "kids", "slots", "vec", "ufl", "unexp", "fn", "syn", "deg", "conjd", "depth", "sig", "bad", "memo", "kind", "info", "lossy")
 
     def __init__(self, op, kids, slots, obj, fn, syn=(), deg=None, conjd=(), vec=False, kind=None, unexp=None, info=None):
         self.op = op
@@ -104,6 +104,9 @@ class Node:
         self.bad = any(k.bad for k in kids)
         self.memo = {}
         self.info = info
+        # class Form derives its arguments from its integrands: a Form whose integrands are all Zero (0*F, empty Form) has lost
+        # them, and whatever is built from it reports accordingly; class Form is outside the statement
+        self.lossy = any(k.lossy for k in kids) or has_degenerate_form(obj) or (unexp is not None and has_degenerate_form(unexp))
 
     def ev(self, ov=None):
         """Expected (array | None, magnitude) under the state overrides ov."""
@@ -776,6 +779,8 @@ def mechanism(case, node, what, obj, args=None, missing=None, extra=None):
         if E_ is not None and O_ is not None and E_.ndim == O_.ndim >= 2 and np.moveaxis(O_, 0, -1).shape == E_.shape:
             if mx(np.moveaxis(O_, 0, -1) - E_) <= 1e-8 * max(1.0, mx(E_)):
                 return "direction-slot-first-instead-of-last"
+    if fam == "derivative" and what == "value" and case.cplx and contains_type(node.kids[0].ufl, "Action"):
+        return "Action-Leibniz-in-complex-mode"
     if what == "coefficient-missing" and node.op == "Action" and node.kids and node.kids[0].kind == "Coefficient" and missing in node.kids[0].syn:
         return "left-Coefficient-operand"
     if what == "value" and fam == "Adjoint" and case.cplx:
@@ -793,6 +798,14 @@ def mechanism(case, node, what, obj, args=None, missing=None, extra=None):
         if nonreal(obj):
             return "complex-weight-not-conjugated"
     return sig_ops(node)
+
+
+def contains_type(o, name, depth=0):
+    if tname(o) == name:
+        return True
+    if depth < 12 and isinstance(o, ufl.form.BaseForm) and tname(o) in ("FormSum", "Action", "Adjoint"):
+        return any(contains_type(x, name, depth + 1) for x in o.ufl_operands)
+    return False
 
 
 def check(case, node):
@@ -946,15 +959,14 @@ def check_arguments(case, node, obj, fam, tag, E_):
     if node.slots is None:
         ctx.count("arguments_not_judged_zero_of_any_arity")
         return
-    if has_degenerate_form(obj):
-        # class Form derives its arguments from its integrands: a Form whose integrands are all Zero (0*F, empty Form) has
-        # lost them, and whatever contains it reports accordingly; class Form is outside the statement
-        ctx.count("arguments_not_judged_vanishing_Form_inside")
+    if node.lossy:
+        ctx.count("arguments_not_judged_vanishing_Form_involved")
         return
     try:
         args = obj.arguments()
     except Exception as ex:
         ctx.count("arguments_raises")
+        node.bad = True  # cannot be judged and is not used as an operand any more
         ctx.covered("arguments_raises", f"{sig_ops(node)}: {type(ex).__name__}: {str(ex)[:60]}")
         return
     ctx.count("arguments_checked")
@@ -982,6 +994,7 @@ def check_coefficients(case, node, obj, fam, tag, E_, Emag):
         coefs = obj.coefficients()
     except Exception as ex:
         ctx.count("coefficients_raises")
+        node.bad = True
         ctx.covered("coefficients_raises", f"{sig_ops(node)}: {type(ex).__name__}: {str(ex)[:60]}")
         return
     ctx.count("coefficients_checked")
